@@ -407,6 +407,7 @@ func (ctx *_builtinJSON_stringifyContext) ja(array *Object) {
 	length := toLength(array.self.getStr("length", nil))
 	if length == 0 {
 		ctx.buf.WriteString("[]")
+		ctx.indent = stepback
 		return
 	}
 
@@ -484,6 +485,7 @@ func (ctx *_builtinJSON_stringifyContext) jo(object *Object) {
 
 	if empty {
 		ctx.buf.Truncate(mark)
+		ctx.indent = stepback
 	} else {
 		if ctx.gap != "" {
 			ctx.buf.WriteByte('\n')
